@@ -34,7 +34,7 @@ claim("C02", "proof",
       "count), data payloads and size_bytes return exactly what the encoder placed (proved for the root level; any-depth "
       "versions are stated in CursorSpec.v and proved when CursorProofs.v lands). Correspondence: images from the extracted "
       "reference encoder (independent of the library's setters) decoded by /repo's generated code vs. model vs. values "
-      "computed directly from the encoder's block bytes. Translator theorems as for C01 (wrapper and size tables regenerated from /repo).",
+      "computed directly from the encoder's block bytes. Translator theorems as for C01 (wrapper and size tables regenerated from /repo). The quick tier builds with g++ (C++11, C++20) and clang++ (C++14); set fields are also read through their choice getters (visit_set).",
       TB + " Constant evaluation and all standards x compilers only in the thorough tier / partially.",
       "Coq proof (decode/encode round trip, navigation by induction over the value tree) + differential correspondence")
 claim("C03", "proof",
@@ -57,7 +57,7 @@ claim("C04", "proof",
       "mixed-wrapper sequence equals the random-access spec call by call, the first misplaced call after a legal prefix is "
       "reported and nothing after it runs. Correspondence: Cursor.v / CursorScript.v vs /repo's generated code: complete "
       "traversals, stop-at-k visits, random (member, wrapper) call sequences from init or arbitrary cursor offsets on every "
-      "level view incl. fixed edge schemas (constant-only / member-less levels), cursor_range / cursor_subrange.",
+      "level view incl. fixed edge schemas (constant-only / member-less levels), cursor_range / cursor_subrange. A checks-disabled configuration (SBEPP_DISABLE_ASSERTS) runs every call sequence the model runs without a report; cursor ranges are judged against CursorRange.run_crange_at.",
       TB + " cursor_range bookkeeping is judged by a Python oracle built from model addresses unless CursorRange.v is present.",
       "Coq proof (single calls, sequences, traversal by mutual induction) + differential correspondence of the extracted interpreter")
 claim("C05", "proof",
@@ -91,7 +91,7 @@ claim("C19", "proof",
       "unknown tag. Check: recording visitor over sbepp::visit / visit_children on random images and fixed edge schemas vs "
       "the extracted models: event order/values/addresses, member names, final cursor; stop at every k (implementation vs "
       "CursorStop model vs prefix); composite visit_children incl. refs to constant types; get_by_tag/set_by_tag vs named "
-      "accessors for every member; enum/set visit (c19enum).",
+      "accessors for every member; enum/set visit (c19enum). By-tag cursor call sequences (get_by_tag<Tag>(view, cursor)) run in lock-step with the named cursor accessors; the recording visitors log any callback that arrives after a stop request; a checks-disabled configuration is included.",
       TB + " by-tag access is compared with the named accessors of the implementation (no separate model).",
       "Coq proof (traversal + stop-budget simulation by mutual induction) + differential correspondence")
 claim("C06", "proof",
@@ -106,7 +106,7 @@ claim("C06", "proof",
       "blockLength/numInGroup/length overwrite (0, +-1, just fits/exceeds, type max) of reference-encoder images incl. "
       "header-only messages, buffer ending on a PROT_NONE page, asserts off: no fault, verdict == described_fit, callbacks "
       "within the proven bound, implementation == model. Two defects were repaired (unbounded work for zero-length flat "
-      "entries; uint64 data length wrap).",
+      "entries; uint64 data length wrap). A large-n probe claims lengths beyond 2^31 / 2^32 for messages whose last member is a flat group (nothing beyond the dimension is read) and compares the verdict with exact arithmetic.",
       TB + " Safety holds only outside the two recorded findings.",
       "Coq proof (exactness, potential-function work bound) + refutation witnesses (vm_compute) + truncation/overwrite sweep against a declarative spec")
 claim("C12", "proof",
@@ -131,7 +131,7 @@ claim("C13", "proof",
       "returned position) for all four length types and both byte orders under vector validity; frame (no byte outside "
       "prefix+max(old,new) payload changes); no spurious assertion; erase up to end(); lifted to arbitrary op sequences by "
       "induction. Correspondence: exhaustive sequences to depth 3 from every small state, random sequences of length 200, "
-      "4 length types x 2 byte orders x char/uint8/int8, asserts on/off. Also: value arguments that alias an element of the view itself (push_back/insert/resize), and short views whose end lies inside the length prefix (every call must end in the handler).",
+      "4 length types x 2 byte orders x char/uint8/int8, asserts on/off. Also: value arguments that alias an element of the view itself (push_back/insert/resize), and short views whose end lies inside the length prefix (every call must end in the handler). Genuinely single-pass ranges and iterators (all iterators share one read position) feed assign_range / insert.",
       TB, "Coq refinement proof (concrete buffer -> abstract vector) + exhaustive small-scope differential correspondence")
 claim("C16", "proof",
       "16 theorems (Properties_C16.v): default/nullopt is null, has_value/value_or/in_range, all six comparison operators "
@@ -179,7 +179,7 @@ claim("C10", "proof",
       "outcome (value or handler) of every op on images truncated around every header/dimension/length/field boundary and "
       "at sampled lengths, the view ending on a PROT_NONE page, must be the outcome of the checked model; the read-based "
       "Msg.v expectation is kept as a cross-check; never a fault; complete image => no handler; plus hostile <data> "
-      "lengths steering the next view past the end.",
+      "lengths steering the next view past the end. Hostile (smaller) wire blockLength values under plain-cursor traversal of truncated buffers are part of the sweep.",
       TB + " Partial: that CheckedAccess.v transcribes sbepp.hpp's checks is tied by the sweep (exact agreement of "
       "value/handler at every truncation point), not proved against the C++ text; cursor traversal keeps the read-based "
       "expectation; container mutators are covered by C13/C14.",
